@@ -11,10 +11,8 @@ from concurrent.futures import ThreadPoolExecutor
 from pathlib import Path
 from typing import Any
 
-# mutation testing only: VERIF_SRC=<private copy of /repo/src> makes this run use that tree (never /repo itself)
-if os.environ.get("VERIF_SRC"):
-    sys.path.insert(0, os.environ["VERIF_SRC"])
-
+# the implementation under test is whatever ./check put on PYTHONPATH (framework.REPO, default /repo;
+# VERIF_REPO_ROOT=<scratch checkout> for seeded-change experiments) — nothing here names /repo
 from framework import Check, cbool, clist, copt, cpair, cstr, load_corpus  # noqa: E402
 from pipeline import base_spec, drive, generate  # noqa: E402
 
